@@ -150,6 +150,189 @@ func ruleInputAlias(c *Ctx) []Ob {
 			s.ok(fname+":no-alias", c.Pos(fn.Pos()), "no value aliasing the input is stored, returned or written")
 		}
 	}
+	// inside the zero-copy routine every write of the destination is a view of the input, except the empty value on the
+	// zero-length edge: a "cheap copy" for some lengths (an interned one-byte string, a small-string cache) makes the field
+	// stop following the buffer for exactly those values
+	if nocopy != nil && len(nocopy.Params) > 0 {
+		var dest *ssa.Parameter
+		for _, p := range nocopy.Params {
+			if b, ok := p.Type().Underlying().(*types.Basic); ok && b.Kind() == types.UnsafePointer {
+				dest = p
+			}
+		}
+		a := c.bounds(nocopy, closure)
+		var fromDest func(v ssa.Value, d int) bool
+		fromDest = func(v ssa.Value, d int) bool {
+			if d > 6 || dest == nil {
+				return false
+			}
+			switch x := v.(type) {
+			case *ssa.Parameter:
+				return x == dest
+			case *ssa.Convert:
+				return fromDest(x.X, d+1)
+			case *ssa.ChangeType:
+				return fromDest(x.X, d+1)
+			case *ssa.FieldAddr:
+				return fromDest(x.X, d+1)
+			}
+			return false
+		}
+		lenEdge := func(b *ssa.BasicBlock) (zero, nonZero bool) {
+			for _, cd := range domConds(b) {
+				if bo, ok := cd.V.(*ssa.BinOp); ok {
+					if z, ok := constInt(bo.Y); ok && z == 0 && wireSource(a, bo.X) {
+						if bo.Op == token.EQL && cd.Truth || bo.Op == token.NEQ && !cd.Truth {
+							zero = true
+						}
+						if bo.Op == token.EQL && !cd.Truth || bo.Op == token.NEQ && cd.Truth || bo.Op == token.GTR && cd.Truth || bo.Op == token.LEQ && !cd.Truth {
+							nonZero = true
+						}
+					}
+				}
+			}
+			return
+		}
+		t := inputTaint(a)
+		for _, b := range nocopy.Blocks {
+			for _, ins := range b.Instrs {
+				switch x := ins.(type) {
+				case *ssa.Store:
+					if !fromDest(x.Addr, 0) {
+						continue
+					}
+					if t[x.Val] || a.derivedFrom(x.Val) {
+						continue // a view: its shape is checked above
+					}
+					zero, _ := lenEdge(b)
+					s.check(zero, "decodeStringNoCopy:dest-write", c.InstrPos(x), "the only value written that is not a view of the input is the empty one, on the zero-length edge",
+						"the zero-copy routine stores a value that is not a view of the input on a path where the length is not known to be zero: for those values a nocopy field is a copy and no longer follows the buffer: "+c.srcLine(x.Pos()))
+				case *ssa.Call:
+					passes := false
+					for _, arg := range x.Call.Args {
+						if fromDest(arg, 0) {
+							passes = true
+						}
+					}
+					if !passes || x.Call.StaticCallee() == nil {
+						continue
+					}
+					zero, _ := lenEdge(b)
+					s.check(zero, "decodeStringNoCopy:dest-write", c.InstrPos(x), "the destination is handed to a helper only on the zero-length edge",
+						"the zero-copy routine hands the destination to "+x.Call.StaticCallee().Name()+" on a path where the length is not known to be zero: "+c.srcLine(x.Pos()))
+				}
+			}
+		}
+	}
+	// the empty-slice helper overwrites all three words of the header on every path: a destination that is being reused (a
+	// second decode into the same object, a pooled map slot) must not keep the Data / Cap of an earlier value - for a nocopy
+	// binary that is a view of an earlier input buffer with spare capacity
+	if zf := c.Func(pkgReflect, "(*sliceHeader).Zero"); zf != nil && len(zf.Params) > 0 {
+		stored := map[string]bool{}
+		for _, b := range zf.Blocks {
+			all := true
+			for _, r := range zf.Blocks {
+				if len(r.Instrs) > 0 {
+					if _, isRet := r.Instrs[len(r.Instrs)-1].(*ssa.Return); isRet && !(b == r || b.Dominates(r)) {
+						all = false
+					}
+				}
+			}
+			if !all {
+				continue
+			}
+			for _, ins := range b.Instrs {
+				if st, ok := ins.(*ssa.Store); ok {
+					if fa, ok := st.Addr.(*ssa.FieldAddr); ok && fa.X == ssa.Value(zf.Params[0]) {
+						f := fieldName(fa.X.Type(), fa.Field)
+						switch f {
+						case "Len", "Cap":
+							if z, ok := constInt(st.Val); ok && z == 0 {
+								stored[f] = true
+							}
+						case "Data":
+							if cst, isC := st.Val.(*ssa.Const); !isC || cst.Value != nil {
+								stored[f] = true
+							}
+						}
+					}
+				}
+			}
+		}
+		s.check(stored["Data"] && stored["Len"] && stored["Cap"], "sliceHeader.Zero:complete", c.Pos(zf.Pos()), "Data, Len and Cap are overwritten on every path",
+			fmt.Sprintf("sliceHeader.Zero does not overwrite all three words on every path (unconditional stores: %v): a reused destination keeps the backing array and capacity of its previous value - for a nocopy binary a window into an earlier input buffer that an append then writes to", keysOf(stored)))
+	}
+	// the bytes handed to the holder are a slice whose capacity is its length: carved out of a retained block with a
+	// two-index slice they would share spare capacity with the holder of the struct decoded next (an append to one
+	// overwrites the other)
+	if cp := c.Func(pkgReflect, "(*unknownFields).Copy"); cp != nil {
+		var exact func(v ssa.Value, d int) (bool, string)
+		exact = func(v ssa.Value, d int) (bool, string) {
+			if d > 8 {
+				return false, "origin too deep"
+			}
+			switch x := v.(type) {
+			case *ssa.Call:
+				if isBuiltin(x, "Slice") {
+					return true, ""
+				}
+				if f := x.Call.StaticCallee(); f != nil && f.Blocks != nil && c.InModule(f) {
+					n := 0
+					for _, fb := range f.Blocks {
+						if ret, ok := fb.Instrs[len(fb.Instrs)-1].(*ssa.Return); ok && len(ret.Results) == 1 && fb != f.Recover {
+							n++
+							if ok2, why := exact(unspill(ret.Results[0], fb), d+1); !ok2 {
+								return false, why
+							}
+						}
+					}
+					return n > 0, "helper " + f.Name() + " has no single-result return"
+				}
+				return false, "result of " + calleeShort(x)
+			case *ssa.MakeSlice:
+				if x.Len == x.Cap {
+					return true, ""
+				}
+				return false, "make with a capacity different from the length"
+			case *ssa.Slice:
+				if x.Max != nil {
+					if x.Max == x.High {
+						return true, ""
+					}
+					return false, "three-index slice whose capacity differs from its length"
+				}
+				if ok, _ := exact(x.X, d+1); ok && x.Low == nil {
+					// a prefix of a block made for this value alone
+					if _, isFresh := x.X.(*ssa.Call); isFresh {
+						return true, ""
+					}
+					if _, isFresh := x.X.(*ssa.MakeSlice); isFresh {
+						return true, ""
+					}
+				}
+				return false, "two-index slice " + path(x) + " of " + path(x.X) + ": the rest of that block stays reachable as spare capacity"
+			case *ssa.Phi:
+				for _, e := range x.Edges {
+					if ok, why := exact(e, d+1); !ok {
+						return false, why
+					}
+				}
+				return true, ""
+			case *ssa.Const:
+				return x.Value == nil, "constant"
+			case *ssa.ChangeType:
+				return exact(x.X, d+1)
+			}
+			return false, "value " + path(v)
+		}
+		for _, b := range cp.Blocks {
+			if ret, ok := b.Instrs[len(b.Instrs)-1].(*ssa.Return); ok && len(ret.Results) == 1 && b != cp.Recover {
+				ok2, why := exact(unspill(ret.Results[0], b), 0)
+				s.check(ok2, "unknownFields.Copy:result-exact", c.InstrPos(ret), "the holder bytes are a slice with capacity == length (unsafe.Slice / make / full slice expression)",
+					"the bytes handed to the holder are not known to have capacity == length ("+why+"): holders of different structs would share memory past their length")
+			}
+		}
+	}
 	// call sites of the zero-copy routine
 	if nocopy != nil {
 		n := 0
